@@ -48,6 +48,7 @@ type Op struct {
 	Via    string `json:"via,omitempty"`    // write path: "" = Set, "reader" = SetReader, "create" = Create+Write*+Close
 	Split  []int  `json:"split,omitempty"`  // reader: max bytes per Read; create: sizes of the Write calls (cyclic)
 	N      int    `json:"n,omitempty"`      // burst: number of keys
+	Cctx   bool   `json:"cctx,omitempty"`   // the caller's context is already cancelled when the call is made (inline binding only: it ignores contexts)
 }
 
 // Case is a generated test case for E1.
@@ -100,6 +101,7 @@ type World struct {
 
 	removedInGC int64
 	inGC        atomic.Bool
+	held []heldRead // results of earlier reads, re-verified after every later read
 }
 
 var dirCounter atomic.Int64
@@ -471,13 +473,23 @@ func (w *World) doWrite(s fs_db.Store, key string, b []byte, op Op) error {
 					break // at least one pass over the split list, so trailing empty writes happen
 				}
 				n := op.Split[i%len(op.Split)]
+				viaCopy := n >= CopyPiece
+				if viaCopy {
+					n -= CopyPiece
+				}
 				if n < 0 {
 					n = 0
 				}
 				if n > len(rest) {
 					n = len(rest)
 				}
-				if !write(rest[:n]) {
+				if viaCopy {
+					// a source without WriteTo: io.Copy drives the file (ReadFrom if it has one, else Write)
+					_, werr = io.Copy(f, struct{ io.Reader }{bytes.NewReader(append([]byte(nil), rest[:n]...))})
+					if werr != nil {
+						break
+					}
+				} else if !write(rest[:n]) {
 					break
 				}
 				rest = rest[n:]
@@ -523,8 +535,44 @@ func (w *World) readKey(id int, key string, useReader bool) ([]byte, error) {
 }
 
 // checkRead compares one read with the model. what describes the context for the message.
+// heldRead is a result handed out by an earlier Get/GetReader: the slice belongs to the caller, so
+// no later call may change it.
+type heldRead struct {
+	b    []byte
+	sum  [32]byte
+	desc string
+}
+
+const heldReads = 4
+
+func (w *World) checkHeld(what string) bool {
+	for _, h := range w.held {
+		if sha256.Sum256(h.b) != h.sum {
+			w.R.Failf("%s: the bytes returned earlier by %s changed after later calls (the caller's slice is shared with something else)", what, h.desc)
+			return false
+		}
+	}
+	return true
+}
+
+func (w *World) hold(b []byte, desc string) {
+	if len(b) == 0 {
+		return
+	}
+	if len(w.held) >= heldReads {
+		w.held = w.held[1:]
+	}
+	w.held = append(w.held, heldRead{b: b, sum: sha256.Sum256(b), desc: desc})
+}
+
 func (w *World) checkRead(id int, key string, useReader bool, what string) bool {
 	got, err := w.readKey(id, key, useReader)
+	if !w.checkHeld(what) {
+		return false
+	}
+	if err == nil && !useReader {
+		w.hold(got, fmt.Sprintf("%s Get(%q) at step %d", actorName(w, id), key, w.step))
+	}
 	if w.Obs != nil {
 		h := sha256.Sum256(got)
 		*w.Obs = append(*w.Obs, fmt.Sprintf("%s read %q -> %s %x", actorName(w, id), key, Class(err), h[:6]))
@@ -657,6 +705,17 @@ func (w *World) noteContent(b []byte, desc string) {
 // Apply executes one op against the implementation and the model and compares the op's own result.
 // It returns false when the oracle rejected something (w.R.Fail is set) or on infrastructure trouble.
 func (w *World) Apply(i int, op Op) bool {
+	if op.Cctx && !w.Case.External {
+		saved := w.ctx
+		cctx, cancel := context.WithCancel(saved)
+		cancel()
+		w.ctx = cctx
+		defer func() { w.ctx = saved }()
+	}
+	return w.apply(i, op)
+}
+
+func (w *World) apply(i int, op Op) bool {
 	w.step = i
 	what := fmt.Sprintf("step %d (%s)", i, op.K)
 	switch op.K {
